@@ -3,13 +3,13 @@ package frontend
 import (
 	"context"
 	"fmt"
-	"math"
 	"strings"
 	"sync/atomic"
 	"time"
 
 	"github.com/alpacahq/marketstore/v4/catalog"
 	"github.com/alpacahq/marketstore/v4/executor"
+	"github.com/alpacahq/marketstore/v4/planner"
 	"github.com/alpacahq/marketstore/v4/proto"
 	"github.com/alpacahq/marketstore/v4/sqlparser"
 	"github.com/alpacahq/marketstore/v4/utils"
@@ -107,7 +107,8 @@ func (s GRPCService) Query(_ context.Context, reqs *proto.MultiQueryRequest) (*p
 			epochStart := req.EpochStart
 			epochEnd := req.EpochEnd
 			if req.EpochEnd == 0 {
-				epochEnd = int64(math.MaxInt64)
+				// the latest instant time.Time can represent (time.Unix(math.MaxInt64, 0) overflows into the past)
+				epochEnd = planner.MaxTime.Unix()
 			}
 			limitRecordCount := int(req.LimitRecordCount)
 			limitFromStart := req.LimitFromStart
